@@ -10,6 +10,8 @@ import SkModel.Result
 import SkModel.Spec.Simple
 import SkModel.Spec.Sequence
 import SkModel.Store
+import SkModel.Seeker
+import SkModel.Spec.Lines
 
 open Lean Sk
 
@@ -202,10 +204,102 @@ def runStoreCase (j : Json) : Json :=
       | .error _ => acc.push (Json.mkObj [("err", "alloc")])
   Json.mkObj [("steps", Json.arr (go st0 ops #[]))]
 
+/-! ### Seeker (C11, C04) -/
+
+/-- index of the first element ≥ x in a sorted array -/
+def lowerBound (a : Array Nat) (x : Nat) : Nat := Id.run do
+  let mut lo := 0
+  let mut hi := a.size
+  while lo < hi do
+    let mid := (lo + hi) / 2
+    if a.getD mid 0 < x then lo := mid + 1 else hi := mid
+  return lo
+
+def memSorted (a : Array Nat) (x : Nat) : Bool :=
+  let i := lowerBound a x
+  i < a.size && a.getD i 0 == x
+
+def seekErrJson : SeekErr → Json
+  | .maxLineLen => "maxLineLen"
+  | .tooManyUndated => "tooManyUndated"
+  | .noTimestamps => "noTimestamps"
+  | .noValidLines => "noValidLines"
+  | .assertFailed => "assertFailed"
+
+def optInt (v : Option Int) : Json := optJson (fun (n : Int) => toJson n) v
+
+def tokJson : Tok → Json
+  | .found o => Json.arr #["F", toJson o]
+  | .edge o => Json.arr #["E", toJson o]
+
+def llineJson (ts : Nat → Option Int) (l : LLine) : Json :=
+  Json.arr #[toJson l.startOffset, toJson l.endOffset, optInt (l.date ts)]
+
+def runSeekCase (j : Json) : Json :=
+  let lfs := (arrF j "lfs").map asNat
+  let F : FileV := { len := natF j "len", isLF := fun i => memSorted lfs i }
+  let tsTab := (arrF j "ts").map fun e => let a := asArr e
+    (asNat (a.getD 0 .null), asInt (a.getD 1 .null), asNat (a.getD 2 .null))
+  let tsOff := tsTab.map (·.1)
+  let tsEntry (o : Nat) : Option (Int × Nat) :=
+    let i := lowerBound tsOff o
+    if i < tsTab.size && tsOff.getD i 0 == o then
+      let e := tsTab.getD i (0, 0, 0); some (e.2.1, e.2.2) else none
+  let ts : Nat → Option Int := fun o => (tsEntry o).map (·.1)
+  let K : SeekK := { H := natF j "H", EXP := natF j "EXP", ATT := natF j "ATT" }
+  let since := asInt (fld j "since")
+  let outs := (arrF j "ops").map fun op =>
+    let a := asArr op
+    let o := asNat (a.getD 1 .null)
+    match asStr (a.getD 0 .null) with
+    | "tfl_all" =>
+      let rows := (List.range (F.len + 1)).map fun o =>
+        match tryFindLine K F o none none with
+        | .ok l => llineJson ts l
+        | .error e => seekErrJson e
+      let spec := (List.range (F.len + 1)).map fun o =>
+        Json.arr #[toJson (Spec.lineStart F o), toJson (Spec.lineEnd F o)]
+      Json.mkObj [("tfl", Json.arr rows.toArray), ("spec", Json.arr spec.toArray)]
+    | "tfl" =>
+      match tryFindLine K F o none none with
+      | .ok l => Json.mkObj [("tfl", llineJson ts l),
+                              ("spec", Json.arr #[toJson (Spec.lineStart F o), toJson (Spec.lineEnd F o)])]
+      | .error e => Json.mkObj [("tfl", seekErrJson e),
+                                 ("spec", Json.arr #[toJson (Spec.lineStart F o), toJson (Spec.lineEnd F o)])]
+    | "ftr" =>
+      match findTokenReverse K F o with
+      | .ok t => Json.mkObj [("tok", tokJson t)]
+      | .error e => Json.mkObj [("tok", seekErrJson e)]
+    | "ft" =>
+      match findToken K F o with
+      | .ok t => Json.mkObj [("tok", tokJson t)]
+      | .error e => Json.mkObj [("tok", seekErrJson e)]
+    | "getitem" =>
+      match getItem K F ts o with
+      | .ok l => Json.mkObj [("item", llineJson ts l)]
+      | .error e => Json.mkObj [("item", seekErrJson e)]
+    | "apply" =>
+      let starts := Spec.lineStarts F
+      let h4 := starts.all fun s => match tsEntry s with
+        | some (_, mlen) => mlen ≤ Spec.lineEnd F s - s
+        | none => true
+      let hyps := Json.mkObj [
+        ("monotone", toJson (Spec.datedMonotone F ts)),
+        ("undatedRun", toJson (Spec.longestUndatedRun F ts)),
+        ("longestLine", toJson (Spec.longestLine F)),
+        ("windowOk", toJson h4)]
+      let m := match applyToFile K F ts since with
+        | .ok p => Json.mkObj [("pos", toJson p)]
+        | .error e => Json.mkObj [("err", seekErrJson e)]
+      Json.mkObj [("apply", m), ("spec", toJson (Spec.sincePosition F ts since)), ("hyps", hyps)]
+    | k => Json.mkObj [("_bad", Json.str s!"unknown seek op {k}")]
+  Json.mkObj [("outs", Json.arr outs)]
+
 def handle (j : Json) : Json :=
   match strF j "kind" with
   | "task" => Json.mkObj [("model", runTaskCase j), ("specSimple", specSimpleCase j),
                           ("specSeq", specSeqCase j)]
+  | "seek" => Json.mkObj [("model", runSeekCase j)]
   | "store" => Json.mkObj [("model", runStoreCase j)]
   | "c03exh" =>
     let (t, b) := c03Exh (natF j "L")
